@@ -1,0 +1,119 @@
+//go:build verif
+// +build verif
+
+package errbase
+
+// This file is only compiled with the "verif" build tag. It gives an
+// external verification harness a way to look at, and temporarily
+// replace, the process-global encode/decode registries, so that it
+// can simulate processes that know fewer (or differently named) error
+// types. It does not change any existing behavior.
+
+// VerifRegistry is a copy of the registries.
+type VerifRegistry struct {
+	leafEncoders       map[TypeKey]LeafEncoder
+	encoders           map[TypeKey]WrapperEncoderWithMessageType
+	leafDecoders       map[TypeKey]LeafDecoder
+	decoders           map[TypeKey]WrapperDecoder
+	multiCauseDecoders map[TypeKey]MultiCauseDecoder
+	backwardRegistry   map[TypeKey]TypeKey
+}
+
+func (r VerifRegistry) clone() VerifRegistry {
+	c := VerifRegistry{
+		leafEncoders:       make(map[TypeKey]LeafEncoder, len(r.leafEncoders)),
+		encoders:           make(map[TypeKey]WrapperEncoderWithMessageType, len(r.encoders)),
+		leafDecoders:       make(map[TypeKey]LeafDecoder, len(r.leafDecoders)),
+		decoders:           make(map[TypeKey]WrapperDecoder, len(r.decoders)),
+		multiCauseDecoders: make(map[TypeKey]MultiCauseDecoder, len(r.multiCauseDecoders)),
+		backwardRegistry:   make(map[TypeKey]TypeKey, len(r.backwardRegistry)),
+	}
+	for k, v := range r.leafEncoders {
+		c.leafEncoders[k] = v
+	}
+	for k, v := range r.encoders {
+		c.encoders[k] = v
+	}
+	for k, v := range r.leafDecoders {
+		c.leafDecoders[k] = v
+	}
+	for k, v := range r.decoders {
+		c.decoders[k] = v
+	}
+	for k, v := range r.multiCauseDecoders {
+		c.multiCauseDecoders[k] = v
+	}
+	for k, v := range r.backwardRegistry {
+		c.backwardRegistry[k] = v
+	}
+	return c
+}
+
+// VerifSnapshotRegistry returns a copy of the current registries.
+func VerifSnapshotRegistry() VerifRegistry {
+	return VerifRegistry{
+		leafEncoders:       leafEncoders,
+		encoders:           encoders,
+		leafDecoders:       leafDecoders,
+		decoders:           decoders,
+		multiCauseDecoders: multiCauseDecoders,
+		backwardRegistry:   backwardRegistry,
+	}.clone()
+}
+
+// VerifInstallRegistry replaces the current registries by copies of r.
+func VerifInstallRegistry(r VerifRegistry) {
+	c := r.clone()
+	leafEncoders = c.leafEncoders
+	encoders = c.encoders
+	leafDecoders = c.leafDecoders
+	decoders = c.decoders
+	multiCauseDecoders = c.multiCauseDecoders
+	backwardRegistry = c.backwardRegistry
+}
+
+// Without returns a copy of r where the given keys have neither
+// encoder nor decoder.
+func (r VerifRegistry) Without(keys ...TypeKey) VerifRegistry {
+	c := r.clone()
+	for _, k := range keys {
+		delete(c.leafEncoders, k)
+		delete(c.encoders, k)
+		delete(c.leafDecoders, k)
+		delete(c.decoders, k)
+		delete(c.multiCauseDecoders, k)
+	}
+	return c
+}
+
+// VerifRegistryKeys lists the type keys of r per registry.
+type VerifRegistryKeys struct {
+	LeafDecoders, WrapperDecoders, MultiCauseDecoders []TypeKey
+	LeafEncoders, WrapperEncoders                     []TypeKey
+	// Migrations maps a current type key to the key it is encoded under.
+	Migrations map[TypeKey]TypeKey
+}
+
+// Keys lists the type keys that have a decoder or an encoder.
+func (r VerifRegistry) Keys() (res VerifRegistryKeys) {
+	for k := range r.leafDecoders {
+		res.LeafDecoders = append(res.LeafDecoders, k)
+	}
+	for k := range r.decoders {
+		res.WrapperDecoders = append(res.WrapperDecoders, k)
+	}
+	for k := range r.multiCauseDecoders {
+		res.MultiCauseDecoders = append(res.MultiCauseDecoders, k)
+	}
+	for k := range r.leafEncoders {
+		res.LeafEncoders = append(res.LeafEncoders, k)
+	}
+	for k := range r.encoders {
+		res.WrapperEncoders = append(res.WrapperEncoders, k)
+	}
+	res.Migrations = make(map[TypeKey]TypeKey, len(r.backwardRegistry))
+	for k, v := range r.backwardRegistry {
+		res.Migrations[k] = v
+	}
+	return res
+}
